@@ -39,15 +39,17 @@ CONSTANTS MaxIn,      \* input tokens 1..MaxIn; every add attempt / accepted con
           NextRVs,    \* answers a harness input's next() may give: subset of {1, 0, -1}
           Whats,      \* event masks offered to mpt_notify_wait (1 = POLLIN, 4 = POLLOUT, -1 = all)
           MaxQ,       \* messages in flight + buffered per input
-          Hows        \* how a peer ends: "shut" (shutdown of the sending side) / "close"
+          Hows,       \* how a peer ends: "shut" (shutdown of the sending side) / "close"
+          Ops         \* optional groups of calls a configuration offers
 
 VARIABLES att,        \* a dispatcher is attached (mpt_notify_dispatch)
           nin, ik,    \* input tokens drawn, kind per token
           reg, was, rel,
           wire, eof, buf, sent, last,
+          peek,       \* design: the input has decoded its next message already (the look-ahead after a dispatch)
           wait, cur, conn,
           nobs
-nstate == <<att, nin, ik, reg, was, rel, wire, eof, buf, sent, last, wait, cur, conn>>
+nstate == <<att, nin, ik, reg, was, rel, wire, eof, buf, sent, last, peek, wait, cur, conn>>
 nvars  == <<state, nstate, obs, nobs>>
 full   == <<state, nstate>>
 
@@ -67,16 +69,18 @@ DQuietR(r) == /\ UNCHANGED state
 DQuiet == DQuietR("ok")
 
 \* observation of a step: what the real notifier must show afterwards
-NAnswer(a, arg, ret, nx, rl, data) ==
+\* (dany = 1: the dispatcher-level return value d.ret is not demanded)
+NAnswerD(a, arg, ret, nx, rl, data, dany) ==
   nobs' = [a |-> a, arg |-> arg,
            exp |-> [ret |-> ret, cur |-> cur', nexts |-> SetSeq(nx), rel |-> SetSeq(rl),
-                    reg |-> SetSeq(reg'), waiting |-> SetSeq(wait'), data |-> data, d |-> obs'.exp]]
+                    reg |-> SetSeq(reg'), waiting |-> SetSeq(wait'), data |-> data, d |-> obs'.exp, dany |-> dany]]
+NAnswer(a, arg, ret, nx, rl, data) == NAnswerD(a, arg, ret, nx, rl, data, 0)
 
 NewIn == nin + 1
 Fresh(t, k) ==
   /\ nin' = t /\ ik' = Ext(ik, t, k) /\ rel' = Ext(rel, t, 0)
   /\ wire' = Ext(wire, t, <<>>) /\ eof' = Ext(eof, t, FALSE) /\ buf' = Ext(buf, t, <<>>)
-  /\ sent' = Ext(sent, t, 0) /\ last' = Ext(last, t, 0) /\ conn' = Ext(conn, t, 0)
+  /\ sent' = Ext(sent, t, 0) /\ last' = Ext(last, t, 0) /\ conn' = Ext(conn, t, 0) /\ peek' = Ext(peek, t, FALSE)
 
 ---------------------------------------------------------------------------
 (* mpt_notify_add / mpt_notify_connect / mpt_notify_bind: a new input of kind k is registered *)
@@ -92,32 +96,31 @@ NAdd(k) ==
 (* mpt_notify_add of an input whose descriptor is taken (that of input j) or invalid: refused, *)
 (* the notifier does not own it: never called, never released                                   *)
 AddRefused(a, arg) ==
-  /\ nin < MaxIn
-  /\ Fresh(NewIn, "h")
-  /\ UNCHANGED <<att, reg, was, wait, cur>>
+  /\ UNCHANGED nstate
   /\ DQuiet
   /\ NAnswer(a, arg, "refused", {}, {}, <<>>)
-NAddSame(j) == j \in reg /\ AddRefused("addsame", [of |-> j, tok |-> NewIn])
-NAddBad     == AddRefused("addbad", [tok |-> NewIn])
+NAddSame(j) == j \in reg /\ AddRefused("addsame", [of |-> j])
+NAddBad     == AddRefused("addbad", [x |-> 0])
 
 (* environment: the peer of input i writes one message / ends / connects to a listener *)
 NSend(i, m) ==
   /\ i \in reg /\ Data(ik[i]) /\ ~eof[i]
   /\ Len(wire[i]) + Len(buf[i]) < MaxQ
   /\ wire' = Upd(wire, i, Append(wire[i], m)) /\ sent' = Upd(sent, i, sent[i] + 1)
-  /\ UNCHANGED <<att, nin, ik, reg, was, rel, eof, buf, last, wait, cur, conn>>
+  /\ UNCHANGED <<att, nin, ik, reg, was, rel, eof, buf, last, peek, wait, cur, conn>>
   /\ DQuiet
   /\ NAnswer("send", [i |-> i, data |-> m], "ok", {}, {}, <<>>)
 NShut(i, how) ==
   /\ i \in reg /\ Data(ik[i]) /\ ~eof[i]
   /\ eof' = Upd(eof, i, TRUE)
-  /\ UNCHANGED <<att, nin, ik, reg, was, rel, wire, buf, sent, last, wait, cur, conn>>
+  /\ UNCHANGED <<att, nin, ik, reg, was, rel, wire, buf, sent, last, peek, wait, cur, conn>>
   /\ DQuiet
   /\ NAnswer("shut", [i |-> i, how |-> how], "ok", {}, {}, <<>>)
 NConn(i) ==
   /\ i \in reg /\ Lsn(ik[i]) /\ nin + conn[i] < MaxIn
+  /\ ik[i] = "o" => conn[i] = 0                     \* a single-connection listener has no backlog
   /\ conn' = Upd(conn, i, conn[i] + 1)
-  /\ UNCHANGED <<att, nin, ik, reg, was, rel, wire, eof, buf, sent, last, wait, cur>>
+  /\ UNCHANGED <<att, nin, ik, reg, was, rel, wire, eof, buf, sent, last, peek, wait, cur>>
   /\ DQuiet
   /\ NAnswer("conn", [i |-> i], "ok", {}, {}, <<>>)
 
@@ -128,27 +131,37 @@ NConn(i) ==
 (* removed and released.  Nothing ready: the previous list stays.                                *)
 Ready(i) == IF Lsn(ik[i]) THEN conn[i] > 0 ELSE wire[i] # <<>> \/ eof[i]
 ReadySet == {i \in reg : Ready(i)}
-Served(what) == IF HasIn(what) THEN ReadySet ELSE {}
-NWait(what, rvs) ==
+\* a FIFO whose writer is gone and that holds no data reports hang-up only: served by a wait for all events
+InReady(i)   == ~(ik[i] = "f" /\ wire[i] = <<>>)
+Served(what) == {i \in ReadySet : what = -1 \/ (HasIn(what) /\ InReady(i))}
+RV(rvs, i) == IF i \in DOMAIN rvs THEN rvs[i] ELSE 1
+\* how many of the messages on the wire a library input gets hold of in one go is its own business (it reads into
+\* the free part of its buffer): take[i] of them, all when take says nothing
+TK(take, i) == IF i \in DOMAIN take THEN take[i] ELSE Len(wire[i])
+NWait(what, rvs, take) ==
   LET R    == Served(what)
-      gone == {i \in R : \/ ik[i] = "h" /\ rvs[i] < 0
-                         \/ ik[i] \in {"s", "c", "f"} /\ wire[i] = <<>>
+      gone == {i \in R : \/ ik[i] = "h" /\ RV(rvs, i) < 0
+                         \/ ik[i] \in {"s", "c"} /\ wire[i] = <<>>
+                         \/ ik[i] = "f" /\ wire[i] = <<>> /\ ~peek[i]    \* hang-up only: stays while a decoded message waits
                          \/ ik[i] = "o"}
-      list == {i \in R \ gone : \/ ik[i] = "h" /\ rvs[i] > 0
-                               \/ ik[i] \in {"s", "c", "f"}}
+      list == {i \in R \ gone : \/ ik[i] = "h" /\ RV(rvs, i) > 0
+                               \/ (ik[i] \in {"s", "c", "f"} /\ wire[i] # <<>>)}
       acc  == {i \in R : Lsn(ik[i])}
       t    == NewIn
       E(f, v) == IF acc = {} THEN f ELSE Ext(f, t, v)
   IN
+  /\ \A i \in DOMAIN take : take[i] \in 0..Len(wire[i])
   /\ nin' = IF acc = {} THEN nin ELSE t
   /\ ik' = E(ik, "c")
   /\ reg' = (reg \ gone) \cup (IF acc = {} THEN {} ELSE {t})
   /\ was' = was \cup (IF acc = {} THEN {} ELSE {t})
   /\ rel' = [x \in DOMAIN E(rel, 0) |-> IF x \in gone THEN rel[x] + 1 ELSE E(rel, 0)[x]]
-  /\ buf' = [x \in DOMAIN E(buf, <<>>) |-> IF x \in R /\ Data(ik[x]) THEN buf[x] \o wire[x] ELSE E(buf, <<>>)[x]]
-  /\ wire' = [x \in DOMAIN E(wire, <<>>) |-> IF x \in R /\ Data(ik[x]) THEN <<>> ELSE E(wire, <<>>)[x]]
+  /\ buf' = [x \in DOMAIN E(buf, <<>>) |->
+               IF x \in R /\ Data(ik[x]) THEN buf[x] \o SubSeq(wire[x], 1, TK(take, x)) ELSE E(buf, <<>>)[x]]
+  /\ wire' = [x \in DOMAIN E(wire, <<>>) |->
+               IF x \in R /\ Data(ik[x]) THEN SubSeq(wire[x], TK(take, x) + 1, Len(wire[x])) ELSE E(wire, <<>>)[x]]
   /\ conn' = [x \in DOMAIN E(conn, 0) |-> IF x \in acc THEN conn[x] - 1 ELSE E(conn, 0)[x]]
-  /\ eof' = E(eof, FALSE) /\ sent' = E(sent, 0) /\ last' = E(last, 0)
+  /\ eof' = E(eof, FALSE) /\ sent' = E(sent, 0) /\ last' = E(last, 0) /\ peek' = E(peek, FALSE)
   /\ wait' = IF ReadySet = {} THEN wait ELSE list
   /\ cur' = IF cur \in gone THEN 0 ELSE cur
   /\ UNCHANGED att
@@ -159,25 +172,37 @@ NWait(what, rvs) ==
 NPop(i) ==
   /\ IF wait = {} THEN i = 0 ELSE i \in wait
   /\ cur' = i /\ wait' = wait \ {i}
-  /\ UNCHANGED <<att, nin, ik, reg, was, rel, wire, eof, buf, sent, last, conn>>
+  /\ UNCHANGED <<att, nin, ik, reg, was, rel, wire, eof, buf, sent, last, peek, conn>>
   /\ DQuiet
   /\ NAnswer("next", [x |-> 0], "any", {}, {}, <<>>)
 
 (* cur->dispatch(handler): the oldest buffered message of the input goes through the dispatcher  *)
-(* (Dispatch!EmitMsg); without dispatcher it is consumed.  rq: the caller lists the input again   *)
-(* (what mpt_loop does on the retry flag).                                                        *)
-NHand(hr, rq) ==
+(* (Dispatch!EmitMsg); without dispatcher it is consumed; nothing buffered: nothing happens.      *)
+NHand(hr) ==
   LET arg == [r |-> hr[1], clear |-> hr[2]]
       q   == buf[cur]
   IN
   /\ cur # 0 /\ Data(ik[cur])
   /\ IF q = <<>>
-     THEN /\ UNCHANGED <<buf, last>> /\ DQuietR(0)
+     THEN /\ UNCHANGED <<buf, last, peek>> /\ DQuietR(0)
      ELSE /\ buf' = Upd(buf, cur, Tail(q)) /\ last' = Upd(last, cur, last[cur] + 1)
+          /\ peek' = Upd(peek, cur, Tail(q) # <<>>)
           /\ IF att THEN EmitMsg(Head(q), hr) ELSE DQuietR(0)
-  /\ wait' = IF rq THEN wait \cup {cur} ELSE wait
-  /\ UNCHANGED <<att, nin, ik, reg, was, rel, wire, eof, sent, cur, conn>>
-  /\ NAnswer("dispatch", arg, "any", {}, {}, IF q # <<>> /\ obs'.exp.calls # <<>> THEN <<Head(q)>> ELSE <<>>)
+  /\ UNCHANGED <<att, nin, ik, reg, was, rel, wire, eof, sent, wait, cur, conn>>
+  /\ NAnswerD("dispatch", arg, "any", {}, {}, IF q # <<>> /\ obs'.exp.calls # <<>> THEN <<Head(q)>> ELSE <<>>,
+              IF q = <<>> \/ ~att THEN 1 ELSE 0)
+(* what mpt_loop does on the retry flag: the input in hand is listed again *)
+NRelist ==
+  /\ cur # 0
+  /\ wait' = wait \cup {cur}
+  /\ UNCHANGED <<att, nin, ik, reg, was, rel, wire, eof, buf, sent, last, peek, cur, conn>>
+  /\ DQuiet
+  /\ NAnswer("relist", [x |-> 0], "any", {}, {}, <<>>)
+(* a call that finds nothing to do (its target is gone) *)
+NQuiet(a, arg) ==
+  /\ UNCHANGED nstate
+  /\ DQuietR(IF a = "dispatch" THEN 0 ELSE "ok")
+  /\ NAnswerD(a, arg, "any", {}, {}, <<>>, 1)
 
 (* the loop's default event: the handler is called without message (Dispatch!EmitNone) *)
 NIdle(hr) ==
@@ -191,9 +216,9 @@ NClear(i) ==
   /\ i \in reg
   /\ reg' = reg \ {i} /\ rel' = Upd(rel, i, rel[i] + 1)
   /\ wait' = wait \ {i} /\ cur' = IF cur = i THEN 0 ELSE cur
-  /\ UNCHANGED <<att, nin, ik, was, wire, eof, buf, sent, last, conn>>
+  /\ UNCHANGED <<att, nin, ik, was, wire, eof, buf, sent, last, peek, conn>>
   /\ DQuiet
-  /\ NAnswer("unreg", [i |-> i], "ok", {}, {i}, <<>>)
+  /\ NAnswer("unreg", [i |-> i], "any", {}, {i}, <<>>)
 
 (* mpt_notify_dispatch: a fresh dispatcher; the one in place is finalised (every registered     *)
 (* handler and the fallback get their end-of-life call, as Dispatch!Fini)                         *)
@@ -206,7 +231,7 @@ FreshDisp(a) ==
              exp |-> [ret |-> "ok", calls |-> OldFinCalls, def |-> Zero, table |-> <<>>]]
 NAttach ==
   /\ att' = TRUE /\ FreshDisp("attach")
-  /\ UNCHANGED <<nin, ik, reg, was, rel, wire, eof, buf, sent, last, wait, cur, conn>>
+  /\ UNCHANGED <<nin, ik, reg, was, rel, wire, eof, buf, sent, last, peek, wait, cur, conn>>
   /\ NAnswer("attach", [x |-> 0], "ok", {}, {}, <<>>)
 
 (* mpt_notify_fini: the handler gets its end-of-life call (the dispatcher is finalised), every   *)
@@ -215,7 +240,7 @@ NFini ==
   /\ att' = FALSE /\ FreshDisp("fini")
   /\ reg' = {} /\ wait' = {} /\ cur' = 0
   /\ rel' = [x \in DOMAIN rel |-> IF x \in reg THEN rel[x] + 1 ELSE rel[x]]
-  /\ UNCHANGED <<nin, ik, was, wire, eof, buf, sent, last, conn>>
+  /\ UNCHANGED <<nin, ik, was, wire, eof, buf, sent, last, peek, conn>>
   /\ NAnswer("fini", [x |-> 0], "ok", {}, reg, <<>>)
 
 (* the attached dispatcher's table is changed between events (Dispatch actions, unchanged) *)
@@ -231,11 +256,11 @@ NSetErr    == NTable(SetError, "seterror", [tok |-> NewTok])
 NInit ==
   /\ Init
   /\ att = FALSE /\ nin = 0 /\ ik = << >> /\ reg = {} /\ was = {} /\ rel = << >>
-  /\ wire = << >> /\ eof = << >> /\ buf = << >> /\ sent = << >> /\ last = << >>
+  /\ wire = << >> /\ eof = << >> /\ buf = << >> /\ sent = << >> /\ last = << >> /\ peek = << >>
   /\ wait = {} /\ cur = 0 /\ conn = << >>
   /\ nobs = [a |-> "init", arg |-> [x |-> 0],
              exp |-> [ret |-> "ok", cur |-> 0, nexts |-> <<>>, rel |-> <<>>, reg |-> <<>>, waiting |-> <<>>,
-                      data |-> <<>>, d |-> [ret |-> "ok", calls |-> <<>>, def |-> Zero, table |-> <<>>]]]
+                      data |-> <<>>, d |-> [ret |-> "ok", calls |-> <<>>, def |-> Zero, table |-> <<>>], dany |-> 0]]
 
 RvChoices(what) ==
   {f \in [1..nin -> NextRVs \cup {1}] :
@@ -243,18 +268,19 @@ RvChoices(what) ==
 
 NNext ==
   \/ \E k \in Kinds : NAdd(k)
-  \/ \E j \in reg : NAddSame(j)
-  \/ NAddBad
+  \/ "refuse" \in Ops /\ ((\E j \in reg : NAddSame(j)) \/ NAddBad)
   \/ \E i \in reg, id \in MsgIds : NSend(i, <<id, i, sent[i] + 1>>)
   \/ \E i \in reg, how \in Hows : NShut(i, how)
   \/ \E i \in reg : NConn(i)
-  \/ \E what \in Whats : \E rvs \in RvChoices(what) : NWait(what, rvs)
+  \/ \E what \in Whats : \E rvs \in RvChoices(what) : NWait(what, rvs, << >>)
   \/ \E i \in wait \cup {0} : NPop(i)
-  \/ \E hr \in HRs : NHand(hr, FALSE) \/ NIdle(hr)
-  \/ \E i \in reg : NClear(i)
+  \/ \E hr \in HRs : NHand(hr)
+  \/ "relist" \in Ops /\ NRelist
+  \/ "idle" \in Ops /\ \E hr \in HRs : NIdle(hr)
+  \/ "unreg" \in Ops /\ \E i \in reg : NClear(i)
   \/ NAttach \/ NFini
-  \/ \E n \in SmallIds : NSet(L(n)) \/ NUnset(L(n))
-  \/ NSetErr
+  \/ \E n \in SmallIds : NSet(L(n))
+  \/ "table" \in Ops /\ ((\E n \in SmallIds : NUnset(L(n))) \/ NSetErr)
 
 NSpec == NInit /\ [][NNext]_nvars
 
@@ -289,7 +315,7 @@ CalledWhileReady ==
 \* a message handed to the dispatcher comes from a registered input, is its oldest one, and reaches
 \* the handler registered for its first byte at that moment, else the fallback; never a finalised one
 HandedRight ==
-  [][nobs'.a = "dispatch" =>
+  [][(nobs'.a = "dispatch" /\ cur # 0) =>
        /\ cur \in reg /\ rel[cur] = 0
        /\ \A k \in DOMAIN nobs'.exp.d.calls :
             LET c == nobs'.exp.d.calls[k]  m == Head(buf[cur]) IN
@@ -299,6 +325,7 @@ HandedRight ==
                          /\ IF Registered(c.id) THEN c.tok = tab[c.id] ELSE c.tok = err]_nvars
 \* releases happen only on removal by answer, by clear, or at teardown; after teardown everybody is notified
 ReleaseCause ==
-  [][/\ \A t \in 1..nin : rel'[t] # rel[t] => nobs'.a \in {"wait", "unreg", "fini"} /\ t \in reg /\ t \notin reg'
+  [][nobs'.a = "init" \/
+     /\ \A t \in 1..nin : rel'[t] # rel[t] => nobs'.a \in {"wait", "unreg", "fini"} /\ t \in reg /\ t \notin reg'
      /\ nobs'.a = "fini" => (reg' = {} /\ \A t \in was : rel'[t] = 1) /\ (\A t \in ever : fin'[t] = 1)]_nvars
 =============================================================================
